@@ -135,6 +135,18 @@ class PostgreSQLQueryBuilder(QueryBuilder):
         self._validate_returning_term(function)
         self._returns.append(function)
 
+    def replace_table(self, current_table: Any, new_table: Any) -> "PostgreSQLQueryBuilder":
+        newone = super().replace_table(current_table, new_table)
+        newone._returns = [
+            term.replace_table(current_table, new_table) if isinstance(term, Term) else term
+            for term in newone._returns
+        ]
+        newone._distinct_on = [
+            term.replace_table(current_table, new_table) if isinstance(term, Term) else term
+            for term in newone._distinct_on
+        ]
+        return newone
+
     def _returning_sql(self, ctx: SqlContext) -> str:
         returning_ctx = ctx.copy(with_alias=True)
         return " RETURNING {returning}".format(
